@@ -16,7 +16,7 @@ SIGMA = ["{", "}", "(", ")", ":", '"', "\\", "u", "1", "a", ".", "-", "#", "\n",
          "\ud83d", "\udc00", "[", "@", "!", "e", "0"]
 EDIT = ["{", "}", "(", '"', "\\", "u", "1", "a", ".", "-", "#", "\n", "$", "\ud83d", "\udc00", "\x00", "[", "@", "!", ":", "="]
 BOUNDS = {
-    "quick": "all strings <=4 over 25 symbols x 5 parsing entry points; every prefix and every single edit (3 ops x 21 symbols x every position) of 2 kitchen-sink files and 30 hand seeds; nesting depth 1..100 x 6 productions complete and cut at every depth; 320 sources x 14 variable maps x 5 operation names through graphql_sync; every builtin Exception class + 16 attribute-shape classes x 8 raise positions x sync/async",
+    "quick": "all strings <=4 over 25 symbols x 5 parsing entry points; every prefix and every single edit (3 ops x 21 symbols x every position) of 2 kitchen-sink files and 30 hand seeds; nesting depth 1..100 x 6 productions complete and cut at every depth; 320 sources x 14 variable maps x 5 operation names through graphql_sync; every builtin Exception class + 16 attribute-shape classes x 8 raise positions x sync/async; structured request matrix: 12 selection contexts (3 operation types, object/list/union/interface parents, fragments) x 21 directive targets (every meta field, every field kind, inline/named spreads) x 92 directive forms (7 directive arguments x 11 value forms, repeats, unknown) x variable definitions x variable maps x schema with/without @defer/@stream; 10 typed variables x 18 runtime values x 20 map keys (case-mapping-length-changing, surrogate, non-str) at 5 nesting positions",
     "thorough": "strings <=5 over 25 symbols; double edits on hand seeds <=25 chars (10 symbols)",
 }
 RULE = (
@@ -29,6 +29,8 @@ RULE = (
 ASSUMPTIONS = [
     "exception classes whose __str__ raises are outside the alphabet (there is no message to surface); BaseException-only classes must propagate",
     "reference tokenizer (vf/ref/lexer.py) decides 'does not lex'",
+    "a schema that itself defines @defer/@stream is refused by execute()/graphql() by design (GraphQLError about experimental directives): "
+    "requests against such a schema go through parse + validate + experimental_execute_incrementally, the stages of graphql_impl",
 ]
 
 SCHEMA_SDL = """
@@ -110,6 +112,10 @@ def shards(tier):
         out.append(("requests", (part, 8)))
     for part in range(4):
         out.append(("resolvers", (part, 4)))
+    for ci in range(len(MX_CONTEXTS)):
+        for with_incr in (False, True):
+            out.append(("matrix", (ci, with_incr)))
+    out.append(("varkeys", None))
     return out
 
 
@@ -432,6 +438,191 @@ def run_resolver_case(label, factory, position, mode, res, viol):
     return True
 
 
+# --------------------------------------------------------------------------- structured request matrix
+
+MX_SDL = """
+type Query { f(a: String, i: Int, l: [Int!], o: In, e: E, b: Boolean): String q: Query l: [Query] n: Int! u: U i: I ls: [String] }
+union U = Query | Other
+interface I { x: Int }
+type Other implements I { x: Int ls: [Int] }
+input In { x: Int = 1, y: [In!], z: String! = "d", abc: Int, abcd: Int }
+input One @oneOf { a: Int, b: String, abc: Int }
+enum E { A B }
+type Mutation { m(a: Int): Int q: Query }
+type Subscription { s: Int q: Query }
+"""
+# (operation keyword, selection-set prefix, suffix): the slot sits where %s is
+MX_CONTEXTS = [
+    ("query", "%s", ""), ("mutation", "%s", ""), ("subscription", "%s", ""),
+    ("query", "q { %s }", ""), ("query", "l { %s }", ""), ("query", "u { %s }", ""), ("query", "i { %s }", ""),
+    ("subscription", "q { %s }", ""), ("subscription", "...F", " fragment F on Subscription { %s }"),
+    ("query", "...F", " fragment F on Query { %s }"), ("query", "u { ...F }", " fragment F on Other { %s }"),
+    ("mutation", "q { u { %s } }", ""),
+]
+MX_VALUES = ["true", "false", "1", "null", '"x"', "$v", "$nope", "[true]", "{a: 1}", "A", "1.5"]
+MX_DIRECTIVES = (
+    ["", "@nope", "@deprecated", "@oneOf", "@skip", "@defer", "@stream", "@skip(if: true) @skip(if: false)",
+     "@defer @defer", "@stream @stream", '@defer(label: "a") @stream(label: "a")', "@defer(nope: 1)", "@stream(initialCount: -1)",
+     "@stream(initialCount: 1, if: $v)", "@specifiedBy(url: 1)"]
+    + [f"@{d}({a}: {v})" for d, a in (("skip", "if"), ("include", "if"), ("defer", "if"), ("defer", "label"),
+                                      ("stream", "if"), ("stream", "label"), ("stream", "initialCount")) for v in MX_VALUES]
+)
+# selections the directive is attached to (%s = directive); every meta field and every field kind is in the menu
+MX_TARGETS = [
+    "__typename %s", "f %s", "n %s", "ls %s", "l %s { n }", "q %s { f }", "u %s { __typename }", "x %s", "s %s", "m %s", "nope %s",
+    "__schema %s { queryType { name } }", '__type(name: "Query") %s { name }', "... %s { __typename }", "... on Query %s { f }",
+    "... on Nope %s { f }", "...G %s", "a: f b: f %s", "f(a: 1) %s", "f(o: {x: $v, nope: 1}) %s", "f(o: {z: null}) f(e: B) %s",
+]
+MX_VARDEFS = ["", "($v: Boolean)", "($v: Boolean! = true)", "($v: Int = 1)", "($v: [In!] = {z: 1})", "($v: Nope)", "($v: Query)",
+              "($v: One = {a: 1, b: null})", "($v: Boolean %s)", "($v: Boolean = $v)"]
+MX_VARS = [("none", None), ("v_true", {"v": True}), ("v_null", {"v": None}), ("v_int", {"v": 1}), ("v_obj", {"v": {"a": 1, "b": "x"}})]
+
+_mx = {}
+
+
+def mx_schema(with_incr):
+    if with_incr not in _mx:
+        from graphql import GraphQLDeferDirective, GraphQLStreamDirective, build_schema
+        from graphql.type import GraphQLSchema
+
+        sch = build_schema(MX_SDL)
+        if with_incr:
+            kw = sch.to_kwargs()
+            kw["directives"] = [*kw["directives"], GraphQLDeferDirective, GraphQLStreamDirective]
+            sch = GraphQLSchema(**kw)
+        _mx[with_incr] = sch
+    return _mx[with_incr]
+
+
+def mx_root():
+    other = {"__typename": "Other", "x": 1, "ls": [1, 2]}
+    inner = {"__typename": "Query", "f": "s", "n": 1, "q": None, "l": None, "u": other, "i": other, "ls": ["a", "b"], "s": 1, "m": 2}
+    root = dict(inner)
+    root["q"] = inner
+    root["l"] = [inner, inner]
+    return root
+
+
+def incremental_request(sch, src, variables):
+    """The stages of graphql_sync with the incremental executor (a schema that defines @defer/@stream is refused by execute())."""
+    from graphql import ExecutionResult, GraphQLError, parse, validate
+    from graphql.execution import ExperimentalIncrementalExecutionResults, experimental_execute_incrementally
+
+    try:
+        doc = parse(src)
+    except GraphQLError as e:
+        return ExecutionResult(None, [e])
+    errs = validate(sch, doc)
+    if errs:
+        return ExecutionResult(None, errs)
+    r = experimental_execute_incrementally(sch, doc, mx_root(), variable_values=variables)
+    if isinstance(r, ExperimentalIncrementalExecutionResults):
+        async def drain():
+            out = []
+            async for p in r.subsequent_results:
+                out.append(p.formatted)
+            return out
+
+        payloads = asyncio.run(drain())
+        if not payloads or payloads[-1].get("hasNext") is not False:
+            raise AssertionError(f"incremental stream does not end with hasNext false: {payloads!r:.200}")
+        i = r.initial_result
+        return ExecutionResult(i.data, i.errors or None)
+    if asyncio.iscoroutine(r):
+        return asyncio.run(r)
+    return r
+
+
+def check_matrix_request(sch, src, vname, variables, res, viol):
+    from graphql import ExecutionResult, graphql_sync
+
+    res.evaluations += 1
+    res.executions += 1
+    try:
+        if sch is _mx.get(True):
+            r = incremental_request(sch, src, variables)
+        else:
+            r = graphql_sync(sch, src, mx_root(), variable_values=variables)
+    except Exception as x:  # noqa: BLE001
+        viol(f"request_raises_{type(x).__name__}", src, f"variables={vname}: {type(x).__name__}: {str(x)[:200]}")
+        return False
+    if not isinstance(r, ExecutionResult):
+        viol("request_returns_non_result", src, f"{type(r).__name__}")
+        return False
+    probs = respformat.check_result(r)
+    if probs:
+        viol("response_malformed:" + probs[0].split(":")[0][:40], src, f"variables={vname}: {probs}")
+        return False
+    msg = r.errors[0].message if r.errors else None
+    res.outcome(("mx", r.data is None, msg and msg[:48]))
+    return True
+
+
+def run_matrix(ci, with_incr, tier, res, viol):
+    sch = mx_schema(with_incr)
+    op, pre, suf = MX_CONTEXTS[ci]
+    n = 0
+    for ti, target in enumerate(MX_TARGETS):
+        for di, d in enumerate(MX_DIRECTIVES):
+            sel = pre % (target % d) if "%s" in pre else pre
+            tail = suf % (target % d) if "%s" in suf else suf
+            # variable definitions: all of them for the first directive forms, the two Boolean ones elsewhere
+            vardefs = MX_VARDEFS if (di < 15 or tier == "thorough") else MX_VARDEFS[:3]
+            for vd in vardefs:
+                vdt = vd % d if "%s" in vd else vd
+                src = f"{op} {vdt} {{ {sel} }}{tail} fragment G on Query {{ f }}"
+                vms = MX_VARS if (vd and (di % 11 == 5 or di < 15 or tier == "thorough")) else MX_VARS[:2]
+                for vname, v in vms:
+                    check_matrix_request(sch, src, vname, v, res, viol)
+                    n += 1
+        res.states += 1
+    res.transitions += n
+    res.count("matrix_requests", n)
+    res.sample({"context": MX_CONTEXTS[ci], "incremental_directives_in_schema": with_incr,
+                "source": f"{op} ($v: Boolean) {{ {pre % (MX_TARGETS[0] % MX_DIRECTIVES[20]) if '%s' in pre else pre} }}"})
+
+
+def varkey_menu():
+    """Variable maps whose keys / values stress the message builders (suggestions, inspect, did-you-mean)."""
+    from graphql.pyutils import Undefined
+
+    keys = ["x", "X", "\u0130", "\u0130\u0130", "\u0130\u0130\u0130x", "\u00df", "\ufb03", "", " ", "a" * 300, "\ud800", "\x00", "x\ny",
+            "__proto__", "$v", 0, None, (1, 2), 1.5, True]
+    vals = [1, None, "s", 10 ** 5000, -(10 ** 5000), float("inf"), float("nan"), "s" * 5000, [], {}, [[[[[[1]]]]]], Undefined, b"b",
+            {"\u0130\u0130": {"\u0130\u0130": 1}}, object, 1 + 2j, {1, 2}, Ellipsis]
+    return keys, vals
+
+
+VARKEY_QUERIES = [
+    "query ($v: In) { f(o: $v) }", "query ($v: [In!]) { f(o: {y: $v}) }", "query ($v: One) { __typename }", "query ($v: Int) { f(i: $v) }",
+    "query ($v: [Int!]) { f(l: $v) }", "query ($v: E) { f(e: $v) }", "query ($v: String = \"d\") { f(a: $v) }", "query ($v: Boolean!) { f(b: $v) }",
+    "query ($v: ID) { __typename }", "query ($v: Float) { __typename }",
+]
+
+
+def run_varkeys(res, viol):
+    sch = mx_schema(False)
+    keys, vals = varkey_menu()
+    n = 0
+    for q in VARKEY_QUERIES:
+        for val in vals:
+            # the value itself, as the variable and under every key of an input object / top-level map
+            vl = type(val).__name__ + (f":{val.bit_length()}bits" if type(val) is int else f":{val!r:.30}")
+            check_matrix_request(sch, q, "v=" + vl, {"v": val}, res, viol)
+            n += 1
+            for k in keys:
+                label = f"{k!r:.30}:" + vl
+                check_matrix_request(sch, q, "top:" + label, {"v": None, k: val}, res, viol)
+                check_matrix_request(sch, q, "in:" + label, {"v": {k: val}}, res, viol)
+                check_matrix_request(sch, q, "in2:" + label, {"v": [{"z": "s", k: val}]}, res, viol)
+                check_matrix_request(sch, q, "in3:" + label, {"v": {"z": "s", "y": [{k: val}]}}, res, viol)
+                n += 4
+        res.states += 1
+    res.transitions += n
+    res.count("varkey_requests", n)
+    res.sample({"queries": VARKEY_QUERIES[:3], "keys": [repr(k)[:20] for k in keys], "values": [type(v).__name__ if type(v) is int and abs(v) > 10 ** 100 else repr(v)[:20] for v in vals]})
+
+
 # --------------------------------------------------------------------------- nesting
 
 NEST = [
@@ -574,6 +765,10 @@ def run_shard(shard, tier):
             res.states += 1
             res.transitions += len(vm) * len(OPNAMES)
         res.sample({"source": sources[8], "variables": [v[0] for v in vm], "operation_names": OPNAMES})
+    elif kind == "matrix":
+        run_matrix(arg[0], arg[1], tier, res, viol)
+    elif kind == "varkeys":
+        run_varkeys(res, viol)
     elif kind == "resolvers":
         part, parts = arg
         menu = exception_menu()
@@ -608,6 +803,12 @@ def replay(payload):
         for vname, v in variables_menu():
             for op in OPNAMES:
                 check_request(s, vname, v, op, res, viol)
+    elif kind == "matrix":
+        for with_incr in (False, True):
+            for vname, v in MX_VARS:
+                check_matrix_request(mx_schema(with_incr), s, vname, v, res, viol)
+    elif kind == "varkeys":
+        run_varkeys(res, viol)
     else:
         label = s.split(" at ")[0]
         for l, f in exception_menu():
